@@ -19,8 +19,10 @@ generalisation of the first one is a known finding (`gap_class`, `exempt`).
 import collections
 import itertools
 import json
+import zlib
 
 from .. import core, molgen, wire
+from . import c06_sorted
 
 LEVEL = 'translation_validation'
 LEVEL_TEXT = ('The ring basis itself comes from a heuristic (PID matrices + filters) for which no universally quantified theorem '
@@ -504,6 +506,104 @@ def parse_resp(line):
     return dict(p.split('=', 1) for p in line.split('|'))
 
 
+PID_MAX_SKIN = 48      # atoms of the pruned graph beyond which the (n^4 assoc-list) Lean model of _make_pid is not run
+PID_STAGES = ('_skin_graph', '_bfs', '_make_pid', '_c_set', '_rings_filter')
+_pid_state = {'off': None}
+
+
+def pid_stage(mol, adj, dist):
+    """the stages of `_sssr` run on the real source under ascending set order (c06_sorted); None = not compared"""
+    if _pid_state['off'] is None:
+        try:
+            S = c06_sorted.load()
+            missing = [k for k in PID_STAGES if not hasattr(S, k)]
+            _pid_state['off'] = ('rings.py no longer has ' + ','.join(missing)) if missing else ''
+        except Exception as e:   # the file cannot be rewritten: recorded, this private stream is skipped (DESIGN §10)
+            _pid_state['off'] = f'rings.py could not be executed under sorted-set semantics: {type(e).__name__}: {e}'
+    if _pid_state['off']:
+        dist['pid-stream-skipped: ' + _pid_state['off']] += 1
+        return None
+    try:
+        rc = mol.rings_count
+    except Exception:
+        return None
+    if not rc or rc < 0:
+        return None
+    if len(two_core(adj)) > PID_MAX_SKIN:
+        dist['pid-skipped-large'] += 1
+        return None
+    # every 8th graph: _rings_filter is also asked for another number of rings (1 … rings_count + 1), which reaches the
+    # `n_sssr == 1` return, the early returns and `ImplementationError('SSSR count not reached')` on ordinary graphs
+    h = zlib.crc32(repr(sorted((n, tuple(sorted(ms))) for n, ms in adj.items())).encode())
+    extra = (1 + (h >> 3) % (rc + 1),) if h % 8 == 0 else ()
+    try:
+        with time_limit(sssr_limit()):
+            return c06_sorted.pid_fields(mol.not_special_connectivity, rc, extra)
+    except TimeoutError:
+        _timeouts['n'] += 1
+        return {'paths': 'timeout', 'cands': 'timeout', 'final': 'timeout'}
+
+
+def _ring_list(txt):
+    return [tuple(int(x) for x in r.split(',')) for r in txt.split(';') if r and r != '!']
+
+
+def _canon_set(txt):
+    """candidate sequence -> sorted set of dihedrally canonical rings (+ '!' if the generator raised)"""
+    return sorted({c06_sorted.canon(r) for r in _ring_list(txt)}) + (['!'] if '!' in txt else [])
+
+
+def _canon_final(txt):
+    if not txt.startswith('ok'):
+        return txt
+    return sorted(c06_sorted.canon(r) for r in _ring_list(txt[3:]))
+
+
+def compare_pid(item, impl, model, d, broke, histories, n_req=0, key='final'):
+    """P: Lean model of _bfs/_make_pid/_c_set/_rings_filter (Model/C06Pid.lean) vs the real source under ascending set
+    order. Compared as canonical ring lists: `_bfs` paths as a sorted list, candidates as the sorted set of canonical
+    rings, the final list as the sorted list of canonical rings (so a rewrite that only reorders is not an alarm; the
+    exact sequences are compared too, but only counted)."""
+    tag, ints, fields, rings, err, adj = item
+    if n_req:   # _rings_filter asked for n_req rings: only the final list is a new comparison
+        mf, jf = _canon_final(model.get('final', '')), _canon_final(impl[key])
+        d['pid-other-n_sssr:' + (model.get('final', '').split(' ')[0])] += 1
+        if mf != jf:
+            broke('correspondence', 'pid-rings-filter', f'{tag}: _rings_filter(…, {n_req}) model {model.get("final")!r} impl(sorted sets) {impl[key]!r} wire={ints}', ints)
+        return
+    d['pid-compared'] += 1
+    if '_' in model:
+        broke('correspondence', 'pid-driver-answer', f'{tag}: driver answered {model["_"]!r} for pid wire={ints}', ints)
+        return
+    note = _hist_note(histories, ints)
+    if sorted(_ring_list(model.get('paths', ''))) != sorted(_ring_list(impl['paths'])) or \
+            (impl['paths'] in ('raise', 'timeout')) != (model.get('paths') == 'raise'):
+        broke('correspondence', 'pid-bfs-paths', f'{tag}: _bfs paths model {model.get("paths")!r} impl(sorted sets) {impl["paths"]!r} wire={ints}{note}', ints)
+        return
+    if impl['cands'] in ('raise', 'timeout') or model.get('cands') == 'raise':
+        if not (impl['cands'] == 'raise' and model.get('cands') == 'raise'):
+            broke('correspondence', 'pid-candidates', f'{tag}: _c_set model {model.get("cands")!r} impl(sorted sets) {impl["cands"]!r} wire={ints}{note}', ints)
+            return
+    elif _canon_set(model.get('cands', '')) != _canon_set(impl['cands']):
+        broke('correspondence', 'pid-candidates', f'{tag}: _c_set candidates model {model.get("cands")!r} impl(sorted sets) {impl["cands"]!r} wire={ints}{note}', ints)
+        return
+    mf, jf = _canon_final(model.get('final', '')), _canon_final(impl['final'])
+    if mf != jf:
+        broke('correspondence', 'pid-rings-filter', f'{tag}: _rings_filter model {model.get("final")!r} impl(sorted sets) {impl["final"]!r} wire={ints}{note}', ints)
+        return
+    d['pid-sequences-identical' if (model.get('cands') == impl['cands'] and model.get('final') == impl['final']
+                                    and model.get('paths') == impl['paths']) else 'pid-equal-up-to-order'] += 1
+    d['pid-final:' + (model.get('final', '').split(' ')[0])] += 1
+    if len(_ring_list(model.get('cands', ''))) > len(mf if isinstance(mf, list) else []):
+        d['pid-candidates-filtered'] += 1
+    # the unmodified run (CPython set order): equal to the model unless the numbering decides a tie
+    if err is None and rings is not None and isinstance(mf, list):
+        d['pid-model-equals-mol.sssr' if sorted(c06_sorted.canon(r) for r in rings) == mf else 'pid-numbering-tie-with-mol.sssr'] += 1
+    elif err is not None:
+        d['pid-model-equals-mol.sssr' if (mf == 'notreached') == (err == 'lib:ImplementationError') and not isinstance(mf, list)
+          else 'pid-numbering-tie-with-mol.sssr'] += 1
+
+
 def evaluate(cases, build_ok=True):
     """Run the implementation and the Lean driver on `cases` = [(tag, wire ints)] and compare. Pure: returns a picklable
     result dict so that it can run in worker processes."""
@@ -517,6 +617,7 @@ def evaluate(cases, build_ok=True):
         if len(res['suspects']) < 40:
             res['suspects'].append(histories.get(id(ints), ints))
     items = []
+    pid_impl = []
     histories = {}
     for case in cases:
         tag, ints = case[0], case[1]
@@ -536,13 +637,23 @@ def evaluate(cases, build_ok=True):
             if err.startswith('crash') or not exempt(gap, 'sssr-raises'):
                 broke('relational', 'sssr-raises', f'{tag}: mol.sssr raised {err}; wire={ints}{_hist_note(histories, ints)}', ints)
         items.append((tag, ints, fields, rings, err, adj))
+        pid_impl.append(pid_stage(mol, adj, res['dist']))
     if not build_ok or not items:
         return res
     lines = [case_line(ints, rings or []) for _, ints, _, rings, _, _ in items]
-    resp = core.run_driver('C06', lines)
-    if len(resp) != len(lines):
-        res['broken'].append(('correspondence', 'driver-lines', f'{len(resp)} responses for {len(lines)} requests'))
+    pid_idx = [i for i, pf in enumerate(pid_impl) if pf is not None]
+    pid_req = []   # (item index, n_sssr or 0 for Rings.sssr itself, key of the implementation's answer)
+    for i in pid_idx:
+        pid_req.append((i, 0, 'final'))
+        pid_req += [(i, int(k[5:]), k) for k in pid_impl[i] if k.startswith('final') and k != 'final']
+    pid_lines = [f'pid {n} ' + ' '.join(str(x) for x in items[i][1]) for i, n, _ in pid_req]
+    resp = core.run_driver('C06', lines + pid_lines)
+    if len(resp) != len(lines) + len(pid_lines):
+        res['broken'].append(('correspondence', 'driver-lines', f'{len(resp)} responses for {len(lines) + len(pid_lines)} requests'))
         return res
+    for (i, n, key), rl in zip(pid_req, resp[len(lines):]):
+        compare_pid(items[i], pid_impl[i], parse_resp(rl), res['dist'], broke, histories, n, key)
+    resp = resp[:len(lines)]
     for (tag, ints, fields, rings, err, adj), line, rl in zip(items, lines, resp):
         r = parse_resp(rl)
         mu = int(fields['rc']) if fields['rc'].lstrip('-').isdigit() else 0
